@@ -45,6 +45,6 @@ for ob in obs:
         print(f"  {r.status.upper():8s} {ob.name}  [{r.backend} {r.time_s:.2f}s] {r.detail}")
         if r.model and '-m' in sys.argv:
             print('     model:', r.model)
-slow = sorted(obs, key=lambda o: -res[o.id].time_s)[:5]
+slow = sorted(obs, key=lambda o: -res[o.id].time_s)[:int(__import__("os").environ.get("SLOWN", "5"))]
 print("slowest:", [(o.name, round(res[o.id].time_s, 2)) for o in slow])
 print(f"proved {len(obs)-bad}/{len(obs)} in {time.time()-t0:.1f}s")
